@@ -140,6 +140,19 @@ class Hasher(Pickler):
             else:
                 cls = obj.__self__.__class__
                 obj = _MyHash(func_name, inst, cls)
+        elif isinstance(obj, (set, frozenset)) and type(obj) not in (set, frozenset):
+            # instances of subclasses are pickled through __reduce_ex__, with
+            # their items listed in iteration order
+            reduced = obj.__reduce_ex__(self.proto)
+            if (
+                isinstance(reduced, tuple)
+                and len(reduced) > 1
+                and isinstance(reduced[1], tuple)
+                and len(reduced[1]) == 1
+                and isinstance(reduced[1][0], list)
+            ):
+                items = _ConsistentSet(reduced[1][0])
+                obj = _MyHash(reduced[0], items, *reduced[2:])
         Pickler.save(self, obj)
 
     def memoize(self, obj):
